@@ -356,6 +356,7 @@ fn shrink<P: Prop>(
     mut tree: Box<dyn ValueTree<Value = P::Case>>,
     first: Failure,
     known: &[KnownFinding],
+    progress: &AtomicU64,
 ) -> (P::Case, Failure, u64) {
     let mut best = tree.current();
     let mut best_f = first;
@@ -366,10 +367,11 @@ fn shrink<P: Prop>(
         return (best, best_f, steps);
     }
     loop {
-        if steps > 20_000 || t0.elapsed() > Duration::from_secs(120) {
+        if steps > 20_000 || t0.elapsed() > Duration::from_secs(20) {
             break;
         }
         steps += 1;
+        progress.fetch_add(1, Ordering::Relaxed);
         let c = tree.current();
         let mut obs = Obs {
             strict: true,
@@ -502,7 +504,7 @@ pub fn worker<P: Prop>(args: &WorkerArgs) -> i32 {
                         continue;
                     }
                     let original = serde_json::to_value(&case).unwrap_or(Value::Null);
-                    let (best, best_f, steps) = shrink::<P>(tree, f, &known);
+                    let (best, best_f, steps) = shrink::<P>(tree, f, &known, &progress);
                     res.failure = Some(FailureRec {
                         signature: best_f.signature,
                         detail: best_f.detail,
